@@ -227,6 +227,12 @@ fn fixed_table() -> Vec<(&'static str, Check)> {
             let (n2, e2, t2) = error_elements("def f(readonly array[int[32], 2] x) { }");
             (t1 > 0 && n1 == 0 || n2 != 0 || e2 != 0 || t2 != 0, format!("`def f(readonly ` [int[32], 2] x) {{ }}` -> {n1} diagnostics, {t1} error tokens; well-formed control -> {n2} diagnostics"))
         }),
+        ("C11-malformed-include", || {
+            // a source with a syntax diagnostic is not analysed (and nothing panics); a well-formed include still works
+            let (s1, r1) = sema_outcome("include;");
+            let (s2, r2) = sema_outcome("include \"stdgates.inc\"; qubit q; h q;");
+            (s1 == 0 || r1 != (Run::Returned { errors: 0 }) || s2 != 0 || r2 != (Run::Returned { errors: 0 }), format!("`include;` -> {s1} syntax diagnostics, {:?}; well-formed control -> {:?}", r1, r2))
+        }),
         ("C03-barrier-no-operands", || c03("barrier;")),
         ("C03-stmt-body-none", || {
             let (a, wa) = c03("while (true) OPENQASM 3;");
